@@ -109,6 +109,12 @@ def oracle(case, obs):
             break
     # distinct input vertices never share an output vertex (follows from ref consistency) - nothing more to do
 
+    # ---- the input mesh is left as it was; the lazily built output is built once
+    if obs.get("mesh_unchanged") is False:
+        out.append(("input-mesh-modified", "the faces or the vertex positions of the input mesh changed"))
+    if obs.get("out_same_object") is False:
+        out.append(("output-rebuilt", "two accesses to output_mesh returned different objects"))
+
     # ---- cut_adj agrees with cut_edges
     adj = {}
     for e in cut:
